@@ -9,6 +9,7 @@ from . import algos_flow as flow
 from . import core_ops as ops
 from . import backtest_run as btr
 from . import algos_select as sel
+from . import algos_rebalance as rb
 
 UPD = [("date", "date"), ("data", "none"), ("inow", "optint")]
 
@@ -56,6 +57,8 @@ def build():
     verifiers.pop("bt.algos.RunPeriod.compare_dates")
     for c, v in flow.contracts():
         reg(c, v)
+    for c, v in rb.contracts():
+        reg(c, v)
     for c, v in sel.contracts():
         reg(c, v)
         if v is None:
@@ -78,6 +81,7 @@ def build():
     loops.update(flow.LOOPS)
     loops.update(btr.LOOPS)
     loops.update(ops.LOOPS)
+    loops.update(rb.LOOPS)
     # state merging at if-joins keeps StrategyBase.update at tens of paths; for the non-linear sizing
     # search of allocate separate paths are much easier for the solver
     options = {"bt.core.SecurityBase.allocate": dict(merge=False)}
